@@ -10,3 +10,9 @@ pub mod hint;
 pub mod iter;
 pub mod num;
 pub mod unroll;
+
+/// Verification hooks (only compiled with `--cfg rten_verif`): re-exports of
+/// crate-private items so an external harness can call them directly.
+#[cfg(rten_verif)]
+#[doc(hidden)]
+pub mod verif {}
